@@ -372,6 +372,45 @@ pub fn run(prop: &str, tier: &str, replay: Option<&str>) -> i32 {
         });
         rep.add(sec);
     }
+    // 3b. equality over values that look alike: the same letters in another case, with other blanks, under another
+    // string kind; == is equality of the enumeration (type, string kind and text), nothing coarser
+    {
+        use refmodel::state::{DnSpec, DnTypeSpec, StrKind};
+        let kinds = [StrKind::Utf8, StrKind::Printable, StrKind::Ia5, StrKind::Teletex, StrKind::Bmp, StrKind::Universal];
+        let texts = ["a", "A", "a b", "a  b", " a", "a ", "A B", ""];
+        let vals: Vec<(StrKind, &str)> = kinds.iter().flat_map(|k| texts.iter().map(move |t| (*k, *t))).collect();
+        let types = [DnTypeSpec::C, DnTypeSpec::O];
+        let mut specs: Vec<DnSpec> = vec![DnSpec(vec![])];
+        for t in &types {
+            for (k, v) in &vals {
+                specs.push(DnSpec(vec![(t.clone(), *k, v.to_string())]));
+            }
+        }
+        for (t0, t1) in [(0usize, 1usize), (1, 0)] {
+            for (k0, v0) in &vals {
+                for (k1, v1) in &vals {
+                    specs.push(DnSpec(vec![(types[t0].clone(), *k0, v0.to_string()), (types[t1].clone(), *k1, v1.to_string())]));
+                }
+            }
+        }
+        let built: Vec<DistinguishedName> = specs.iter().map(|s| crate::glue::to_dn(s).expect("constructible look-alike name")).collect();
+        let idx: Vec<usize> = (0..specs.len()).collect();
+        let sec = Section::new("pairs/equality of look-alike values", &format!("for all pairs of {} names of <= 2 attributes (C, O in either order) over 6 string kinds x 8 texts that differ in case, in blanks or not at all: a == b exactly when type, string kind and text agree position by position", specs.len()));
+        run::sweep_cases(&sec, &idx, &|i| format!("{:?}", specs[*i].0), &|i| {
+            let mut out = Outcome::default();
+            for (j, b) in built.iter().enumerate() {
+                let want = specs[*i].0 == specs[j].0;
+                if (built[*i] == *b) != want {
+                    out.findings.push(Finding::new("DN-EQUALITY", "DistinguishedName::eq", format!("{:?} vs {:?}: == is {}", specs[*i].0, specs[j].0, !want)));
+                    break;
+                }
+            }
+            out.transitions = built.len() as u64;
+            out.digest = fnv(format!("{:?}", specs[*i].0).as_bytes());
+            out
+        });
+        rep.add(sec);
+    }
     // 4. unmerged DFS over all histories up to a depth (no accessor, no state merging)
     {
         let a4 = Alphabet::new(4);
@@ -631,6 +670,11 @@ pub fn run(prop: &str, tier: &str, replay: Option<&str>) -> i32 {
             }
             Err(e) => rep.machinery_error(format!("TLC cross-check failed to run: {}", e)),
         }
+        rep.add(sec);
+    }
+    // clients of the name inside the repository: the builders of the rustls-cert-gen library assign into it
+    #[cfg(feature = "crypto")]
+    for sec in super::builders::sections(thorough) {
         rep.add(sec);
     }
     run::finish(rep)
